@@ -1,24 +1,257 @@
+// Command verif-sa decides the given Mutagen properties by static analysis of
+// /repo's current source (go/packages + go/ssa). See /verif/DESIGN.md.
 package main
 
 import (
+	"flag"
 	"fmt"
 	"os"
+	"runtime/debug"
+	"sort"
+	"strconv"
+	"strings"
 	"time"
 
-	"golang.org/x/tools/go/packages"
 	"golang.org/x/tools/go/ssa"
-	"golang.org/x/tools/go/ssa/ssautil"
+
+	"verif/sa/eng"
+	_ "verif/sa/rules"
 )
 
 func main() {
-	t0 := time.Now()
-	cfg := &packages.Config{Mode: packages.LoadAllSyntax, Dir: "/repo"}
-	pkgs, err := packages.Load(cfg, os.Args[1:]...)
-	if err != nil {
-		panic(err)
+	if len(os.Args) < 2 {
+		usage()
 	}
-	fmt.Println(len(pkgs), time.Since(t0))
-	prog, _ := ssautil.AllPackages(pkgs, ssa.InstantiateGenerics)
-	prog.Build()
-	fmt.Println(time.Since(t0))
+	switch os.Args[1] {
+	case "check":
+		os.Exit(cmdCheck(os.Args[2:]))
+	case "list":
+		for _, id := range eng.IDs() {
+			p := eng.Lookup(id)
+			fmt.Printf("%s\t%s\t%s\n", id, p.Title, strings.Join(p.Packages, ","))
+		}
+	case "dump":
+		os.Exit(cmdDump(os.Args[2:]))
+	default:
+		usage()
+	}
+}
+
+func usage() {
+	fmt.Fprintln(os.Stderr, "usage: verif-sa check -prop ID[,ID…]|all [-tier quick|thorough] [-repo /repo] [-verif /verif]\n       verif-sa dump -pkg rel -func name\n       verif-sa list")
+	os.Exit(2)
+}
+
+func cmdCheck(args []string) int {
+	fs := flag.NewFlagSet("check", flag.ExitOnError)
+	prop := fs.String("prop", "", "property id(s), comma separated, or 'all'")
+	tier := fs.String("tier", "quick", "quick or thorough")
+	repo := fs.String("repo", "/repo", "repository directory")
+	verif := fs.String("verif", "/verif", "verification directory")
+	noSelf := fs.Bool("no-selftest", false, "skip mutation self-tests in thorough tier")
+	fs.Parse(args)
+	if t := os.Getenv("VERIF_TIER"); t != "" && !isFlagSet(fs, "tier") {
+		*tier = t
+	}
+	var seed int64
+	if s := os.Getenv("VERIF_SEED"); s != "" {
+		seed, _ = strconv.ParseInt(s, 10, 64)
+	}
+	var ids []string
+	if *prop == "all" {
+		ids = eng.IDs()
+	} else {
+		ids = strings.Split(*prop, ",")
+	}
+	for _, id := range ids {
+		if eng.Lookup(id) == nil {
+			fmt.Fprintf(os.Stderr, "unknown property %q\n", id)
+			return 2
+		}
+	}
+	exit := 0
+	// Group: one load per configuration for all requested properties.
+	type cfgKey struct{ goos string }
+	start := time.Now()
+	outcomes := map[string]*eng.Outcome{}
+	for _, id := range ids {
+		outcomes[id] = &eng.Outcome{Prop: eng.Lookup(id), Tier: *tier}
+	}
+	runConfig := func(goos string, whole bool, sel []string) {
+		if len(sel) == 0 {
+			return
+		}
+		pats := map[string]bool{}
+		if whole {
+			pats["./..."] = true
+		} else {
+			for _, id := range sel {
+				for _, p := range eng.Lookup(id).Packages {
+					pats["./"+p] = true
+				}
+			}
+		}
+		var patterns []string
+		for p := range pats {
+			patterns = append(patterns, p)
+		}
+		sort.Strings(patterns)
+		cfgName := goos
+		if cfgName == "" {
+			cfgName = "linux"
+		}
+		if whole {
+			cfgName += "/whole-module"
+		}
+		prog, err := eng.Load(eng.LoadOptions{Dir: *repo, Patterns: patterns, GOOS: goos})
+		if err != nil {
+			for _, id := range sel {
+				outcomes[id].Problems = append(outcomes[id].Problems, fmt.Sprintf("[%s] %v", cfgName, err))
+				outcomes[id].Configs = append(outcomes[id].Configs, cfgName+"(not analysed)")
+			}
+			return
+		}
+		for _, id := range sel {
+			o := outcomes[id]
+			if n := len(prog.SSAPkgs); n > o.Packages {
+				o.Packages = n
+			}
+			c := eng.NewCtx(prog, o.Prop, *tier, cfgName)
+			runSafely(c)
+			o.Merge(c)
+		}
+	}
+	if *tier == "thorough" {
+		runConfig("", true, ids)
+		for _, goos := range []string{"darwin", "windows"} {
+			var sel []string
+			for _, id := range ids {
+				for _, g := range eng.Lookup(id).ThoroughGOOS {
+					if g == goos {
+						sel = append(sel, id)
+					}
+				}
+			}
+			runConfig(goos, false, sel)
+		}
+		if !*noSelf {
+			for _, id := range ids {
+				outcomes[id].SelfTest = eng.RunSelfTests(*repo, *verif, id)
+			}
+		}
+	} else {
+		runConfig("", false, ids)
+	}
+	for _, id := range ids {
+		o := outcomes[id]
+		o.Wall = time.Since(start)
+		if o.Finish(*verif, seed) != 0 {
+			exit = 1
+		}
+	}
+	return exit
+}
+
+func isFlagSet(fs *flag.FlagSet, name string) bool {
+	set := false
+	fs.Visit(func(f *flag.Flag) {
+		if f.Name == name {
+			set = true
+		}
+	})
+	return set
+}
+
+func runSafely(c *eng.Ctx) {
+	defer func() {
+		if r := recover(); r != nil {
+			c.Problem("checker", "panic in rule code: %v\n%s", r, debug.Stack())
+		}
+	}()
+	c.Prop.Run(c)
+}
+
+func cmdDump(args []string) int {
+	fs := flag.NewFlagSet("dump", flag.ExitOnError)
+	pkg := fs.String("pkg", "", "module-relative package")
+	fn := fs.String("func", "", "function name (Type.Method, Func, Func$1)")
+	repo := fs.String("repo", "/repo", "repository directory")
+	goos := fs.String("goos", "", "GOOS")
+	fs.Parse(args)
+	prog, err := eng.Load(eng.LoadOptions{Dir: *repo, Patterns: []string{"./" + *pkg}, GOOS: *goos})
+	if err != nil {
+		fmt.Fprintln(os.Stderr, err)
+		return 1
+	}
+	f, err := prog.Func(*pkg, *fn)
+	if err != nil {
+		fmt.Fprintln(os.Stderr, err)
+		return 1
+	}
+	for _, g := range eng.WithClosures(f) {
+		dumpFunc(prog, g)
+	}
+	return 0
+}
+
+func dumpFunc(prog *eng.Program, f *ssa.Function) {
+	fmt.Printf("=== %s  (%s)\n", eng.FuncName(f), prog.Pos(f.Pos()))
+	for i, p := range f.Params {
+		fmt.Printf("  p%d = %s %s\n", i, p.Name(), eng.TypeShort(p.Type()))
+	}
+	for _, fv := range f.FreeVars {
+		fmt.Printf("  fv:%s %s\n", fv.Name(), eng.TypeShort(fv.Type()))
+	}
+	for _, b := range f.Blocks {
+		var preds, succs []string
+		for _, p := range b.Preds {
+			preds = append(preds, fmt.Sprint(p.Index))
+		}
+		for _, s := range b.Succs {
+			succs = append(succs, fmt.Sprint(s.Index))
+		}
+		fmt.Printf(" b%d (%s) preds=%v succs=%v\n", b.Index, b.Comment, preds, succs)
+		fmt.Printf("    guards: %s\n", eng.AtomsText(eng.GuardsOfBlock(b)))
+		for _, in := range b.Instrs {
+			line := prog.Pos(eng.InstrPos(in))
+			if i := strings.LastIndex(line, ":"); i >= 0 {
+				line = line[i+1:]
+			}
+			switch x := in.(type) {
+			case *ssa.Store:
+				fmt.Printf("    L%-5s store %s <- %s\n", line, eng.Render(x.Addr), eng.Render(x.Val))
+			case *ssa.If:
+				fmt.Printf("    L%-5s if %s\n", line, eng.Render(x.Cond))
+			case *ssa.Return:
+				var rs []string
+				for _, r := range x.Results {
+					rs = append(rs, eng.Render(r))
+				}
+				fmt.Printf("    L%-5s return %s\n", line, strings.Join(rs, ", "))
+			case *ssa.MapUpdate:
+				fmt.Printf("    L%-5s mapupdate %s[%s] <- %s\n", line, eng.Render(x.Map), eng.Render(x.Key), eng.Render(x.Value))
+			case *ssa.Send:
+				fmt.Printf("    L%-5s send %s <- %s\n", line, eng.Render(x.Chan), eng.Render(x.X))
+			case *ssa.Go:
+				fmt.Printf("    L%-5s go %s\n", line, eng.RenderCall(x.Common()))
+			case *ssa.Defer:
+				fmt.Printf("    L%-5s defer %s\n", line, eng.RenderCall(x.Common()))
+			case *ssa.Jump:
+			case ssa.Value:
+				if len(*x.Referrers()) == 0 || isInteresting(x) {
+					fmt.Printf("    L%-5s %s = %s\n", line, x.Name(), eng.Render(x))
+				}
+			default:
+				fmt.Printf("    L%-5s %s\n", line, in.String())
+			}
+		}
+	}
+}
+
+func isInteresting(v ssa.Value) bool {
+	switch v.(type) {
+	case *ssa.Call, *ssa.Phi, *ssa.Select, *ssa.Alloc, *ssa.MakeClosure:
+		return true
+	}
+	return false
 }
